@@ -4,8 +4,8 @@ CHECK = {
              "(model variant, incident particle, material/element, production cuts, incident energy from "
              "{E_min, next(E_min), 6 log-uniform interior points, every internal branch threshold read "
              "from the code/model data -1/0/+1 ulp, prev(E_max), E_max}) x 14 incident directions "
-             "(6 axes + 8 diagonals; em part: + 4 letters for the near-pole branch of the shared rotate() "
-             "helper: 1e-3 rad off +-z with negative y, and (0,0,+-(1-2^-53))) x all RNG scripts (quick: all 5^4 prefixes over "
+             "(6 axes + 8 diagonals; em part: + 6 letters for the near-pole branch of the shared rotate() "
+             "helper: 1e-3 rad off +-z with negative and with positive y, and (0,0,+-(1-2^-53))) x all RNG scripts (quick: all 5^4 prefixes over "
              "{2^-32, 1/4, 1/2, 3/4, 1-2^-32} on the first 4 canonicals; thorough: those + every script "
              "with <= 2 forced canonicals, 7-letter alphabet incl. the extreme 32-bit words, anywhere in "
              "the first 16; unforced canonicals from a fixed splitmix64 tail) x secondary storage "
@@ -24,10 +24,15 @@ CHECK = {
         "the cell): an exactly-zero canonical is never produced",
         "element data: Livermore PE / atomic relaxation Z=19, Seltzer-Berger Z=29 (the files shipped in "
         "test/celeritas/data); other models: He, O, K, Cu, W, Pb and a three-element compound",
+        "atomic relaxation production cuts (gamma, electron): equal {0, 2.5e-4, 1e-3, 1} MeV and split "
+        "(1e-2, 0), (0, 1e-2), (2.5e-4, 1e-3), (1e-3, 2.5e-4); every product is compared with the cut of "
+        "its own particle type; product identity is decided by the EADL table (radiative / "
+        "non-radiative) its energy comes from",
         "momentum balance is only required of models that return all products of a two-body process "
         "(Klein-Nishina with surviving electron, Moller, Bhabha, e+ annihilation, mu/hadron ionisation); "
         "photoelectric, Rayleigh, pair production, bremsstrahlung and Coulomb scattering leave momentum "
-        "with the atom/nucleus",
+        "with the atom/nucleus; in-flight e+ annihilation additionally gets a per-photon two-body "
+        "oracle (photon 0) that does not depend on the second photon",
         "muhad part: scripted canonicals use lower word 0x00100000 (the true middle of the 2^-32 cell: "
         "canonical = ((upper<<21) ^ lower)*2^-53); thorough adds two lower fills giving 2^-53-scale "
         "canonicals whose failures are recorded as observations only",
@@ -40,10 +45,10 @@ CHECK = {
         "muhad part: CHIPS recoil nucleus is not returned; its kinetic energy is the local deposit, so "
         "two-body kinematics (deposit == sqrt(|p_in-p_out|^2+M^2)-M) is checked instead of a momentum sum",
     ],
-    "bounds": {"quick": {"rng_prefix_k": 4, "rng_alphabet": 5, "scripts": 625, "directions": 18,
+    "bounds": {"quick": {"rng_prefix_k": 4, "rng_alphabet": 5, "scripts": 625, "directions": 20,
                          "interior_energies": 6, "max_words": 10000},
                "thorough": {"rng_prefix_k": 4, "rng_alphabet": 5, "deviations": 2, "deviation_window": 16,
-                            "deviation_alphabet": 7, "scripts": 6618, "directions": 18,
+                            "deviation_alphabet": 7, "scripts": 6618, "directions": 20,
                             "interior_energies": 6, "max_words": 10000,
                             "muhad": {"scripts": 5236, "interior_energies": 12,
                                       "interior_energies_coulomb_mubrems": 8, "chips_energies": 16}}},
